@@ -4,7 +4,7 @@
 From Coq Require Import ZArith List Bool Lia.
 From PTK Require Import Lib.Sx Lib.Py Model.C11_Scroll Model.C11_CopyBody
      Proofs.C11_ScrollFacts Proofs.C11_CopyFacts Proofs.C11_LiveFacts
-     Proofs.C11_WrapFacts Proofs.C11_NoWrapFacts Proofs.C11_SeqFacts.
+     Proofs.C11_WrapFacts Proofs.C11_NoWrapFacts Proofs.C11_SeqFacts Proofs.C11_VarPrefixFacts.
 Import ListNotations.
 Open Scope Z_scope.
 
@@ -106,4 +106,40 @@ Proof.
   apply (wrap_narrow_cursor sw dw disp haspfx pfx width height xpos ypos p top bottom lines cyr cxc st
            true allow); try assumption.
   now left.
+Qed.
+
+(* variable-width prefixes (any per-line, per-wrap-count prefixes that leave a cell) *)
+Lemma wrap_varprefix_cursor :
+  forall sw dw disp haspfx pfx width height xpos ypos top bottom lines cyr cxc st allow kc,
+  (forall c, sw c = 1) -> (forall c, dw c = 1) ->
+  (forall l k, epw haspfx pfx l k + 1 <= width) ->
+  1 <= height -> 0 <= top -> 0 <= bottom -> 0 <= vs st ->
+  (forall ln, In ln lines -> 1 <= len ln) ->
+  0 <= cyr < len lines -> 0 <= cxc < len (nth (Z.to_nat cyr) lines []) ->
+  capsum haspfx pfx width cyr kc <= cxc < capsum haspfx pfx width cyr (S kc) ->
+  let Hfn l := height_for_line sw haspfx pfx (nth (Z.to_nat l) lines []) l width None in
+  let tbhn s := height_for_line sw haspfx pfx (nth (Z.to_nat cyr) lines []) cyr width (Some s) in
+  let s' := scroll_wrap allow Hfn tbhn width height top bottom cyr cxc (len lines) st in
+  let o := copy_body sw dw disp true haspfx pfx width height xpos ypos lines s' in
+  let y := sumH Hfn (vs s') (Z.to_nat cyr) - vs2 s' + Z.of_nat kc in
+  let x := epw haspfx pfx cyr (Z.of_nat kc) + (cxc - capsum haspfx pfx width cyr kc) in
+  0 <= y < height /\ 0 <= x < width /\
+  alist_get (cr2 o) (cyr, cxc) = Some (y + ypos, x + xpos) /\
+  exists c, nth_error (nth (Z.to_nat cyr) lines []) (Z.to_nat cxc) = Some c /\
+            cstr (scr_get (cscr o) (y + ypos) (x + xpos)) = disp c.
+Proof.
+  intros sw dw disp haspfx pfx width height xpos ypos top bottom lines cyr cxc st allow kc
+         Hsw Hdw Hfit Hh Htop Hbottom Hvs Hlines Hcy Hcx Hkc Hfn tbhn s' o y x.
+  destruct (wrap_varprefix_registered sw dw disp haspfx pfx width height xpos ypos top bottom
+              lines cyr cxc st allow Hsw Hdw Hfit Hh Htop Hbottom Hvs Hlines Hcy Hcx kc Hkc)
+    as (Hy & Hx & Hv & Hget).
+  change (0 <= y < height) in Hy. change (0 <= x < width) in Hx. change (0 <= vs s') in Hv.
+  change (alist_get (cr2 o) (cyr, cxc) = Some (y + ypos, x + xpos)) in Hget.
+  split; [exact Hy|]. split; [exact Hx|]. split; [exact Hget|].
+  assert (Hf0 : forall l, true = false \/ haspfx = false \/ len (pfx l 0) <= width).
+  { intros l. pose proof (Hfit l 0) as H. unfold epw in H.
+    destruct haspfx; [right; right; lia | right; now left]. }
+  pose proof (registered_is_right sw dw disp true haspfx pfx width height xpos ypos lines s' Hdw Hf0 Hv) as HR.
+  cbv zeta in HR. destruct (HR (cyr, cxc) (y + ypos, x + xpos) Hget) as (_ & c & Hc & Hcell).
+  exists c. split; [now apply char_at_nth | exact Hcell].
 Qed.
